@@ -356,6 +356,8 @@ type idLeaf struct {
 	gotWhy         string
 	convOnly       [2]bool // classified numeric by conversion without a digits-only test
 	emptyX, emptyY bool
+	posE           [2]int // pool-line position of the element on each side
+	hasPosE        [2]bool
 }
 
 // semverIterLeaves enumerates the abstract worlds of one generic iteration of the identifier loop.
@@ -429,6 +431,7 @@ func semverIterLeaves(c *aeCtx, root *ssa.Function) (leaves []idLeaf, atoms *idA
 					}
 				}
 				if v, ok := w.pos[posKey(atoms.E, ind)]; ok {
+					lf.posE[ind], lf.hasPosE[ind] = v, true
 					if ci := poolIndexStr(c.pools[atoms.E], ""); ci >= 0 && v == 2*ci+1 {
 						if ind == 0 {
 							lf.emptyX = true
@@ -452,7 +455,7 @@ func semverIterLeaves(c *aeCtx, root *ssa.Function) (leaves []idLeaf, atoms *idA
 // preStage: the proven comparator stage of Compare (possibly nested in other stages) that receives
 // the pre-release field
 func preStage(p *Prog, e *Eco, pre string) *ssa.Function {
-	er := runAE(p)[e.Name]
+	er := runAEOne(p, e)
 	if er == nil {
 		return nil
 	}
